@@ -6,6 +6,7 @@ import (
 	"fmt"
 	"io"
 	"os"
+	"strings"
 	"time"
 
 	"github.com/rs/zerolog"
@@ -48,16 +49,17 @@ type c14Dst struct {
 }
 
 type c14Ev struct {
-	panics  bool // logged with Logger.Panic(): the done callback panics after the write
-	id      string
-	task    int
-	level   zerolog.Level
-	ops     []fop
-	outcome []int
-	errs    []error
-	want    []byte
-	handler []error
-	ret     bool
+	panics   bool // logged with Logger.Panic(): the done callback panics after the write
+	id       string
+	task     int
+	level    zerolog.Level
+	ops      []fop
+	outcome  []int
+	errs     []error
+	want     []byte
+	handler  []error
+	ret      bool
+	inflight bool
 }
 
 type c14Run struct {
@@ -65,7 +67,29 @@ type c14Run struct {
 	ch     *zsim.Choices
 	dsts   []*c14Dst
 	cur    map[int]*c14Ev
+	byID   map[string]*c14Ev
 	single bool
+}
+
+// eventOf finds the event that bytes handed to a destination belong to. Which goroutine
+// carries them there is the fan-out's business (it may use a helper): the event is
+// recognised by its id field, and it must be one whose logging call is in progress.
+func (r *c14Run) eventOf(p []byte) *c14Ev {
+	const key = `"id":"`
+	i := bytes.Index(p, []byte(key))
+	if i < 0 {
+		return nil
+	}
+	rest := p[i+len(key):]
+	j := bytes.IndexByte(rest, '"')
+	if j < 0 {
+		return nil
+	}
+	ev := r.byID[string(rest[:j])]
+	if ev == nil || !ev.inflight {
+		return nil
+	}
+	return ev
 }
 
 func (d *c14Dst) do(l zerolog.Level, hasLv bool, p []byte) (int, error) {
@@ -73,11 +97,11 @@ func (d *c14Dst) do(l zerolog.Level, hasLv bool, p []byte) (int, error) {
 		return len(p), nil
 	}
 	r := d.r
-	ev := r.cur[zsim.CurID()]
+	ev := r.eventOf(p)
 	if ev == nil {
-		zsim.Fail("C14.fanout", "destination %d written outside any logging call: %s", d.idx, clip(p, 80))
+		zsim.Fail("C14.fanout", "destination %d received bytes that belong to no event whose logging call is in progress: %s", d.idx, clip(p, 80))
 	}
-	d.recs = append(d.recs, c14Rec{zsim.CurID(), ev, l, hasLv, append([]byte{}, p...)})
+	d.recs = append(d.recs, c14Rec{ev.task, ev, l, hasLv, append([]byte{}, p...)})
 	zsim.Yield("dst.Write")
 	switch ev.outcome[d.idx] {
 	case ocErr:
@@ -105,7 +129,7 @@ func (w c14Leveled) WriteLevel(l zerolog.Level, p []byte) (int, error) {
 }
 
 func (c14World) Run(prop string, ch *zsim.Choices, trace bool) *RunResult {
-	r := &c14Run{ch: ch, cur: map[int]*c14Ev{}}
+	r := &c14Run{ch: ch, cur: map[int]*c14Ev{}, byID: map[string]*c14Ev{}}
 	oldEH, oldTS := zerolog.ErrorHandler, zerolog.TimestampFunc
 	defer func() { zerolog.ErrorHandler, zerolog.TimestampFunc = oldEH, oldTS }()
 	summary := ""
@@ -115,11 +139,36 @@ func (c14World) Run(prop string, ch *zsim.Choices, trace bool) *RunResult {
 		zerolog.SetGlobalLevel(zerolog.TraceLevel)
 		zerolog.TimestampFunc = func() time.Time { return refTime }
 		zerolog.ErrorHandler = func(err error) {
-			if ev := r.cur[zsim.CurID()]; ev != nil {
-				ev.handler = append(ev.handler, err)
-			} else if !zsim.Dying() {
+			if zsim.Dying() {
+				return
+			}
+			// whose error: the destinations' errors name their event; otherwise the event the
+			// calling task is logging, otherwise the only one in progress
+			var ev *c14Ev
+			for _, x := range events {
+				if x.inflight && strings.Contains(err.Error(), " on "+x.id+":") {
+					ev = x
+				}
+			}
+			if ev == nil {
+				ev = r.cur[zsim.CurID()]
+			}
+			if ev == nil {
+				n := 0
+				for _, x := range events {
+					if x.inflight {
+						ev = x
+						n++
+					}
+				}
+				if n != 1 {
+					ev = nil
+				}
+			}
+			if ev == nil {
 				zsim.Fail("C14.handler", "ErrorHandler called outside any logging call: %v", err)
 			}
+			ev.handler = append(ev.handler, err)
 		}
 		s.ArmDraw([]string{"writer.go", "event.go"})
 		nd := 1 + ch.Weighted(2, 4, 4, 2)
@@ -204,6 +253,7 @@ func (c14World) Run(prop string, ch *zsim.Choices, trace bool) *RunResult {
 				}
 				evs = append(evs, ev)
 				events = append(events, ev)
+				r.byID[ev.id] = ev
 			}
 			per = append(per, evs)
 		}
@@ -220,8 +270,10 @@ func (c14World) Run(prop string, ch *zsim.Choices, trace bool) *RunResult {
 			ts = append(ts, zsim.Spawn(fmt.Sprintf("log%d", t), func() {
 				for _, ev := range evs {
 					r.cur[zsim.CurID()] = ev
+					ev.inflight = true
 					emit14(&lg, ev)
 					ev.ret = true
+					ev.inflight = false
 					delete(r.cur, zsim.CurID())
 				}
 			}))
